@@ -95,9 +95,9 @@ def alphabet(w, h):
 def main(tier):
     w = world()
     return e1prop.run_property(
-        PID, tier, [(w, alphabet, 3 if tier == "quick" else 5, 2 if tier == "quick" else 3),
+        PID, tier, [(w, alphabet, 3 if tier == "quick" else 4, 2 if tier == "quick" else 3),
                     (world_csum(), alphabet_csum, 3 if tier == "quick" else 5, 2 if tier == "quick" else 3)], "rv.props.c11",
-        rule="BFS over all histories <= d (quick 3, thorough 5) of {redo-ifchange a.x|t|all, redo a.x|t, edit src, and for each of "
+        rule="BFS over all histories <= d (quick 3, thorough 4; the checksummed world 5) of {redo-ifchange a.x|t|all, redo a.x|t, edit src, and for each of "
              "the names a.x (matched by default.x.do) and t (t.do): user-edit in place (two contents of different size), "
              "user-replace (new inode), user-restore (an OLDER file of exactly the generated size), user-rm}; an ownership ledger records the last writer of each path; oracle: every "
              "redo command leaves bytes and inode of every user-owned path unchanged, warns when it skips a user-modified "
